@@ -222,6 +222,12 @@ func (rt *stubRT) RoundTrip(req *http.Request) (*http.Response, error) {
 		return mkResp(req, 404, "not found"), nil
 	case "500":
 		return mkResp(req, 500, "backend error"), nil
+	case "500ra":
+		// a failing backend that says how long it would like to be left alone: that is the
+		// backend's wish, the ejection window is the operator's configuration
+		r := mkResp(req, 503, "overloaded")
+		r.Header.Set("Retry-After", "86400")
+		return r, nil
 	case "refuse", "garbage", "eof", "timeout":
 		return nil, transportFault(mode)
 	case "abort":
